@@ -1531,7 +1531,35 @@ def main() -> int:
                 print("\n".join(lines[:6]))
         finally:
             shutil.rmtree(tmp, ignore_errors=True)
+    if not [a for a in sys.argv[1:] if a != "-v"]:
+        bad += replay_accepted(check, AnalysisError)
     return 1 if bad else 0
+
+
+def replay_accepted(check, AnalysisError) -> int:
+    """engine/mutants/c07_patches/accepted/*.diff: accepted twins kept as patches against /repo HEAD (must stay silent)."""
+    import subprocess
+
+    bad = 0
+    for patch in sorted((Path(__file__).resolve().parents[1] / "mutants" / "c07_patches" / "accepted").glob("*.diff")):
+        tmp = Path(tempfile.mkdtemp(prefix="pta-c07acc-"))
+        try:
+            shutil.copytree("/repo/src", tmp / "src")
+            subprocess.run(["git", "init", "-q", "."], cwd=tmp, capture_output=True)
+            r = subprocess.run(["git", "apply", "--whitespace=nowarn", str(patch)], cwd=tmp, capture_output=True, text=True)
+            if r.returncode != 0:
+                print(f"skip accepted:{patch.stem}: patch does not apply")
+                continue
+            try:
+                res = check.analyse("C07", tmp)
+                got = "silent" if not res.violations else ",".join(sorted({o.rule for o in res.violations}))
+            except AnalysisError:
+                got = "undecided"
+            print(f"{'ok  ' if got == 'silent' else 'FAIL'} accepted:{patch.stem}: expected silent, got {got}")
+            bad += got != "silent"
+        finally:
+            shutil.rmtree(tmp, ignore_errors=True)
+    return bad
 
 
 if __name__ == "__main__":
